@@ -126,8 +126,8 @@ type Sim struct {
 	round   int
 
 	sawTrunc, sawRelay, sawDup, sawReorder, sawCompactAfterDelete bool
-	sawSkewExpiry, sawRecover                                   bool
-	f3Excluded                                                  int
+	sawSkewExpiry, sawRecover                                     bool
+	f3Excluded                                                    int
 }
 
 func (s *Sim) on(o string) bool { return s.p.Oracles[o] }
@@ -383,8 +383,11 @@ func (w *recWatcher) need(id, what string) *foldNode {
 	}
 	return n
 }
-func (w *recWatcher) OnLeave(id string)     { w.need(id, "leave").left = true; w.next.OnLeave(id) }
-func (w *recWatcher) OnReachable(id string) { w.need(id, "reachable").unrch = false; w.next.OnReachable(id) }
+func (w *recWatcher) OnLeave(id string) { w.need(id, "leave").left = true; w.next.OnLeave(id) }
+func (w *recWatcher) OnReachable(id string) {
+	w.need(id, "reachable").unrch = false
+	w.next.OnReachable(id)
+}
 func (w *recWatcher) OnUnreachable(id string) {
 	w.need(id, "unreachable").unrch = true
 	w.next.OnUnreachable(id)
